@@ -14,10 +14,14 @@ Record case := mk_case {
 
 Definition ov_eqb := opt_eqb value_eqb.
 
-(** model = implementation: same verdict, same round-trip result for every value *)
+(** model = implementation: same verdict and, for an admitted type, the same round-trip
+    result for every value *)
 Definition check_case (c : case) : bool :=
   negb (o_panic c) && Bool.eqb (validate (c_state c) (c_ty c)) (o_accept c) &&
-  forallb (fun vo => ov_eqb (roundtrip (c_ty c) (fst vo)) (snd vo)) (c_vals c).
+  (* the codec model is claimed on the types the validator admits *)
+  (if validate (c_state c) (c_ty c)
+   then forallb (fun vo => ov_eqb (roundtrip (c_ty c) (fst vo)) (snd vo)) (c_vals c)
+   else true).
 
 (** the property on the observed behaviour: an accepted type returns every well-formed
     value unchanged, and a struct with state only in unexported fields is rejected *)
